@@ -115,8 +115,8 @@ def expected_orf(ref, t):
     utr = t.get('utr', 'gencode')
     has_three = utr != 'none' and (e + (0 if utr == 'gencode' else 3)) < n
     if has_three:
-        end = e if utr == 'gencode' else e + 3
-        end = end - (end - s) % 3
+        # the CDS features end where the stop codon starts, whatever the UTR convention
+        end = e - (e - s) % 3
     else:
         end = n - (n - s) % 3
     return (s, end)
